@@ -1334,11 +1334,11 @@ class AnyPayloadDecoder(AbstractSimplePayloadDecoder):
                 LOG('decoding as untagged ANY, header substrate %s' % debug.hexdump(chunk))
 
         # Any components do not inherit initial tag
-        asn1Spec = self.protoComponent
+        componentSpec = self.protoComponent
 
         if substrateFun and substrateFun is not self.substrateCollector:
             asn1Object = self._createComponent(
-                asn1Spec, tagSet, noValue, **options)
+                componentSpec, tagSet, noValue, **options)
 
             for chunk in substrateFun(
                     asn1Object, chunk + substrate, length + len(chunk), options):
@@ -1349,13 +1349,16 @@ class AnyPayloadDecoder(AbstractSimplePayloadDecoder):
         if LOG:
             LOG('assembling constructed serialization')
 
+        # a collecting caller (enclosing ANY) wants the raw octets back
+        isCollecting = bool(substrateFun)
+
         # All inner fragments are of the same type, treat them as octet string
         substrateFun = self.substrateCollector
 
         while True:  # loop over fragments
 
             for component in decodeFun(
-                    substrate, asn1Spec, substrateFun=substrateFun,
+                    substrate, componentSpec, substrateFun=substrateFun,
                     allowEoo=True, **options):
 
                 if isinstance(component, SubstrateUnderrunError):
@@ -1374,8 +1377,8 @@ class AnyPayloadDecoder(AbstractSimplePayloadDecoder):
             # end-of-octets sentinel (consumed by the item decoder)
             chunk += EOO_SENTINEL
 
-        if substrateFun:
-            yield chunk  # TODO: Weird
+        if isCollecting:
+            yield chunk
 
         else:
             yield self._createComponent(asn1Spec, tagSet, chunk, **options)
